@@ -586,7 +586,7 @@ fn fixed_example_rev(ctx: &Ctx) -> CaseInfo {
 pub fn def() -> PropertyDef {
     PropertyDef {
         id: "C02",
-        rule: "pure tree programs (1-3 query variables, <=2 fresh variables, <=6 atoms from ==/!= over ints 0..3, proper/improper lists and Pair, nested conde/conjunction/fresh, plus a motif posting `x != c` and `[x,y] != [c,d]` in both orders followed by deciding bindings). Oracles: (A) multiset of answers equals the reference interpreter's (un-normalised disequalities; constraint sets compared on solved forms, else by enumerating assignments over a finite universe with more fresh atoms than disequalities), (B) for 6 ground tuples per case: `P, q == g` has an answer <=> reference holds(P,g) <=> g is an instance of some answer, (C) 4 random permutations of every conjunction give the same multiset, (D) for fresh-free disjunction-free programs: brute-force evaluation of the program as a ground formula over U^n (U closed under sub-terms) equals the union of the answers' instance sets. Non-trivial = program has both == and != and a disequality survives into an answer or kills a path; distinct = hash of the printed program. Family `scale`: flat conjunctions over 2-6 variables with up to 400 (thorough 2000) disequalities alive at once (x != k, x != y, [x,y] != [c,d], x != [c|y]), subsumption events and deciding equalities aimed at one stored constraint; judged without the interpreter: satisfiable iff the mgu of the equations makes no disequality identical; for EVERY disequality the tuple that violates it (and satisfies the equations) must not be an instance of the answer; the generic solution must be; the same under a permutation and for `P, q == g` runs (non-trivial there: >= 9 disequalities and an equation)",
+        rule: "pure tree programs (1-3 query variables, <=2 fresh variables, <=6 atoms from ==/!= over ints 0..3, proper/improper lists and Pair, nested conde/conjunction/fresh, plus a motif posting `x != c` and `[x,y] != [c,d]` in both orders followed by deciding bindings). Oracles: (A) multiset of answers equals the reference interpreter's (un-normalised disequalities; constraint sets compared on solved forms, else by enumerating assignments over a finite universe with more fresh atoms than disequalities), (B) for 6 ground tuples per case: `P, q == g` has an answer <=> reference holds(P,g) <=> g is an instance of some answer, (C) 4 random permutations of every conjunction give the same multiset, (D) for fresh-free disjunction-free programs: brute-force evaluation of the program as a ground formula over U^n (U closed under sub-terms) equals the union of the answers' instance sets. Non-trivial = program has both == and != and a disequality survives into an answer or kills a path; distinct = hash of the printed program. Family `scale`: flat conjunctions over 2-6 variables with up to 400 (thorough 1000) disequalities alive at once (x != k, x != y, [x,y] != [c,d], x != [c|y]), subsumption events and deciding equalities aimed at one stored constraint; judged without the interpreter: satisfiable iff the mgu of the equations makes no disequality identical; for EVERY disequality the tuple that violates it (and satisfies the equations) must not be an instance of the answer; the generic solution must be; the same under a permutation and for `P, q == g` runs (non-trivial there: >= 9 disequalities and an equation)",
         assumptions: vec![
             "reference interpreter (model/interp.rs) and unifier are correct; oracle (D) uses neither",
             "instance comparison is complete only relative to the finite universe, which always contains every program constant and more fresh atoms than there are disequalities",
@@ -594,7 +594,7 @@ pub fn def() -> PropertyDef {
         families: vec![
             Family { name: "tree", max_len: 160, quick: 60_000, thorough: 1_500_000, run: run_tree },
             Family { name: "flat", max_len: 120, quick: 40_000, thorough: 1_000_000, run: run_flat },
-            Family { name: "scale", max_len: 96, quick: 8_000, thorough: 300_000, run: run_scale },
+            Family { name: "scale", max_len: 96, quick: 8_000, thorough: 80_000, run: run_scale },
         ],
         fixed: vec![Fixed { name: "property-text-example", run: fixed_example }, Fixed { name: "property-text-example-reordered", run: fixed_example_rev }],
         witnesses: vec![],
